@@ -13,7 +13,9 @@ class KSpec:
     """Everything a K property needs, per tier."""
 
     def __init__(self, package, crate_dir, harness_files, harnesses, ordset=False, substitutions=(), kani_args=(),
-                 jobs=4, encoded=(), bounds=(), outside=(), assumptions=(), expected_fail=None):
+                 jobs=4, encoded=(), bounds=(), outside=(), assumptions=(), expected_fail=None, ordset_cap=4, vecdeque=False):
+        self.ordset_cap = ordset_cap
+        self.vecdeque = vecdeque
         self.package = package
         self.crate_dir = crate_dir
         self.harness_files = harness_files      # {crate_dir: [files]}
@@ -40,7 +42,8 @@ def native_replay(ctx, spec, meta, harness, test_code, keep=None):
     tname = m.group(1)
     # put the test(s) next to the harness function (same module)
     modname = meta["pretty_name"].split("::")[-2]
-    ov = overlay.Overlay("%s-replay" % ctx.id, spec.harness_files, ordset=False, substitutions=(), kani=False)
+    ov = overlay.Overlay("%s-replay" % ctx.id, spec.harness_files, ordset=("const-only" if spec.ordset else False), substitutions=(), kani=False,
+                         ordset_cap=spec.ordset_cap)
     try:
         vf = os.path.join(ov.root, spec.crate_dir, "src", "__verif.rs")
         with open(vf) as f:
@@ -74,7 +77,8 @@ def run(ctx, spec):
     ctx.level = "model_checking"
     t_build0 = time.time()
     try:
-        ov = overlay.Overlay(ctx.id, spec.harness_files, ordset=spec.ordset, substitutions=spec.substitutions)
+        ov = overlay.Overlay(ctx.id, spec.harness_files, ordset=spec.ordset, substitutions=spec.substitutions,
+                             ordset_cap=spec.ordset_cap, vecdeque=spec.vecdeque)
     except overlay.OverlayMismatch as e:
         ctx.inconc("overlay mismatch: %s" % e)
         _coverage(ctx, spec, [], None, 0.0)
